@@ -224,6 +224,12 @@ def main(run, replay=None):
     co_const = {"NumAtoms": 3, "Depth": 2, "MaxParts": 3 if thorough else 2}
     deep_const = {"NumAtoms": 2, "Depth": 3, "MaxParts": 2}
     ms_const = {"MaxRank": 3, "MaxSize": 6 if thorough else 5, "MaxStages": 3}
+    if replay and replay["case"].get("kind") == "routing":
+        from vcore import routing
+
+        for f in routing.replay(run, replay["case"]):
+            run.violation({"kind": "routing", "clause": f["clause"]}, "replayed: " + f["detail"], replay["case"])
+        return
     if replay:
         c = replay["case"]
         if c["kind"] == "program":
@@ -292,15 +298,20 @@ def main(run, replay=None):
     run.sample({"program": show(p0["prog"]), "forward_applies": [[int(k), str(d)] for k, d in p0["fwd"]], "inverse_applies": [[int(k), str(d)] for k, d in p0["inv"]]})
     m0 = next((s for s in mss if int(s["cfg"]["n"]) == 3 and int(s["cfg"]["d"]) == 2), mss[0])
     run.sample({"multiscale": to_py(m0["cfg"]), "route": [int(v) for v in m0["route"]], "stages": [int(v) for v in m0["stages"]]})
+    # the transforms that only move coordinates (spec/Routing.tla)
+    from vcore import routing
+
+    fails += routing.run_leg(run)
     seen = set()
     for f in fails:
-        key = (f["kind"], f["clause"], f.get("prog"), tuple(f.get("shape", [])), f.get("split_dim"), f.get("stages"), f.get("dir"))
+        key = (f["kind"], f["clause"], f.get("op"), f.get("dir"), f.get("prog"), tuple(f.get("shape", [])), f.get("split_dim"), f.get("stages"), f.get("dir"))
         if key in seen:
             continue
         seen.add(key)
-        run.violation({"kind": f["kind"], "clause": f["clause"]}, "%s %s: %s" % (f["kind"], f.get("prog") or (f.get("shape"), f.get("split_dim"), f.get("stages")), f["detail"]), {k: v for k, v in f.items() if k != "detail"})
+        run.violation({"kind": f["kind"], "clause": f["clause"]}, "%s %s: %s" % (f["kind"], f.get("prog") or (f.get("shape"), f.get("split_dim"), f.get("stages"), f.get("op")), f["detail"]), {k: v for k, v in f.items() if k != "detail"})
     run.exhaustive = True
     run.assumptions = [
         "programs: nesting depth 2 over 3 atoms (pointwise affine, LU, context-dependent affine coupling) and nesting depth 3 over 2 of them with at most 2 parts per composite (quick: two programs per nesting skeleton), the same atom object may occur several times",
+        "routing (Routing.tla): permutations of every dimension of shapes with sizes <= 3 (batch of 2), squeeze factors 2 and 3 on the listed image shapes; exact equality on index-tagged tensors",
         "multiscale: shapes of rank <= 3 with sizes <= MaxSize, 1-3 stages, every split dimension; per-stage affine maps with prime scales make routing and log-det terms decodable exactly",
     ]
